@@ -10,7 +10,7 @@ if [ "${SKIP_TESTS:-0}" != 1 ]; then
   PYTHONPATH=$wt timeout 300 /venv/bin/python SEEDED/$x/demo.py > /tmp/vp_demo.out 2>&1; echo "demo with change: exit $? ($(tail -1 /tmp/vp_demo.out | cut -c1-100))"
 fi
 for c in "$@"; do
-  VERIF_REPO=$wt timeout 3000 /venv/bin/python /verif/check $c --tier $tier 2>&1 | grep -E "^(HELD|VIOLATED|INCONCLUSIVE|VIOLATION)" | cut -c1-200 | head -3
+  VERIF_REPO=$wt timeout 3000 /venv/bin/python /verif/check $c --tier $tier 2>&1 | grep -E "^(HELD|VIOLATED|INCONCLUSIVE|VIOLATION)" | cut -c1-200 | (head -2; tail -1)
 done
 git checkout -q -- .
 if [ "${SKIP_TESTS:-0}" != 1 ]; then
